@@ -29,6 +29,8 @@ structure Att where
   hi : Nat               -- block end
   size : Nat             -- chunk size in force
   bestLen : Nat          -- len(iterator.testcase) when the proposal was built
+  base : Testcase        -- iterator.testcase when the proposal was built
+  tIdx : Nat             -- number of tests run before this proposal
   cand : Testcase
   resp : Resp
 deriving Repr, Inhabited
